@@ -99,6 +99,15 @@ SRem(a, b) == LET r == URem(Abs(a), Abs(b)) IN IF SignBit(a) THEN Neg(r) ELSE r
 Div(a, b, signed) == IF signed THEN SDiv(a, b) ELSE UDiv(a, b)
 Rem(a, b, signed) == IF signed THEN SRem(a, b) ELSE URem(a, b)
 
+(* division by a small natural d (2 <= d <= 2^20): byte-wise long division, <<quotient, remainder>> *)
+RECURSIVE DivSmallFrom(_, _, _, _)
+DivSmallFrom(a, d, k, rem) ==        \* returns <<bytes k..1 of the quotient (as a function), remainder>>
+    IF k = 0 THEN <<<<>>, rem>>
+    ELSE LET cur == rem * 256 + a[k]
+             rest == DivSmallFrom(a, d, k - 1, cur % d)
+         IN <<rest[1] \o <<cur \div d>>, rest[2]>>
+DivSmall(a, d) == DivSmallFrom(a, d, Len(a), 0)
+
 (* width changes; `signed` is the signedness of the SOURCE *)
 Resize(a, n, signed) ==
     [k \in 1..n |-> IF k <= Len(a) THEN a[k] ELSE IF signed /\ SignBit(a) THEN 255 ELSE 0]
